@@ -1,8 +1,8 @@
 (* C17 - the relational model handed to transforms is a lossless image of the module.
    Statements only; proofs by `exact`. *)
-From Coq Require Import List NArith ZArith PArith.
+From Coq Require Import List NArith ZArith PArith Permutation.
 Import ListNotations.
-Require Import Verif.Relmod.Model Verif.Relmod.StmtProps Verif.Relmod.Run Verif.Relmod.CensusProps Verif.Relmod.OrderProps
+Require Import Verif.Relmod.Model Verif.Relmod.StmtProps Verif.Relmod.Run Verif.Relmod.CensusProps Verif.Relmod.OrderProps Verif.Relmod.Rebuild
   Verif.Relmod.Shape Verif.Gen.RelmodShape.
 
 (* position paths of the Stmt rows of one endpoint are pairwise distinct - for the path construction the CURRENT
@@ -43,6 +43,22 @@ Theorem C17_stmt_paths_unique_refuted_for_shared_append :
 Proof. exact stmt_paths_unique_refuted_for_shared_append. Qed.
 Print Assumptions C17_stmt_paths_unique_refuted_for_shared_append.
 
+(* ---- lossless image, as a round trip: `rebuild` reads the rows (relation, columns, slice order) back into
+   `project m` - per application: names, attributes, and in walk order its mixins, endpoints (names, REST method/path,
+   event source, parameters with location/index/optionality/type, statement rows), events, types (optionality, kind,
+   primary key, enum items, alias target, fields with optionality/constraint/type incl. set/sequence wrapping and
+   reference target application + path) and views. Every module, no side conditions. ---- *)
+Theorem C17_rows_lossless : forall m rs,
+  normalize child_index_mode alt_index_mode m = Rows rs -> rebuild rs = project m.
+Proof. exact current_rows_lossless. Qed.
+Print Assumptions C17_rows_lossless.
+
+Theorem C17_rows_determine_projection : forall m1 m2 rs,
+  normalize child_index_mode alt_index_mode m1 = Rows rs -> normalize child_index_mode alt_index_mode m2 = Rows rs ->
+  project m1 = project m2.
+Proof. exact current_rows_determine_projection. Qed.
+Print Assumptions C17_rows_determine_projection.
+
 (* ---- census: exactly one row per element, every relation (App, Mixin, Ep, Event, Param, Stmt, Type, Table, Field,
    Enum, Alias, View, Tag.* and Anno.* of every owner), every module on which the CURRENT Normalize succeeds.
    `census R m` (Relmod/CensusProps.v) is the number of R-elements of m: each application contributes one to RApp
@@ -69,19 +85,27 @@ Theorem C17_refused_iff : forall cm am m,
 Proof. exact refused_iff. Qed.
 Print Assumptions C17_refused_iff.
 
-(* ---- the same relations whatever order Go iterates the module's maps in ---- *)
+(* ---- the same relations, row for row and in the same order, whatever order Go iterates the module's maps in:
+   the code walks every map through sortedKeys (Gen.RelmodShape.unsorted_map_ranges = []), modelled by sorted_by ---- *)
 Theorem C17_normalize_order_independent : forall cm am m m',
-  Forall2 app_equiv m m' -> same_outcome (normalize cm am m) (normalize cm am m').
+  Forall2 app_equiv m m' -> normalize cm am m = normalize cm am m'.
 Proof. exact normalize_order_independent. Qed.
 Print Assumptions C17_normalize_order_independent.
+
+Theorem C17_annotations_order_independent : forall o a keys p zs at_ at_',
+  a_tags at_ = a_tags at_' -> NoDup (a_annos at_) -> Permutation (a_annos at_) (a_annos at_') ->
+  meta o a keys p zs at_ = meta o a keys p zs at_'.
+Proof. exact meta_order_independent. Qed.
+Print Assumptions C17_annotations_order_independent.
 
 (* ---- obligations against the current source (Gen/RelmodShape.v) ---- *)
 Theorem C17_shape_of_current_source :
   child_index_mode = CopyParent /\ alt_index_mode = CopyParent /\
   children_visited = [BCond; BLoop; BLoopN; BForeach; BGroup] /\
-  (alt_visits_choice_children && alt_appends_choice_row && statement_appends_row && statement_calls_meta)%bool = true.
+  (alt_visits_choice_children && alt_appends_choice_row && statement_appends_row && statement_calls_meta)%bool = true /\
+  unsorted_map_ranges = [].
 Proof.
   exact (conj child_paths_are_fresh (conj alt_paths_are_fresh (conj all_block_kinds_visited
-         (f_equal2 andb (f_equal2 andb alt_shape eq_refl) eq_refl)))).
+         (conj (f_equal2 andb (f_equal2 andb alt_shape eq_refl) eq_refl) every_map_walk_is_sorted)))).
 Qed.
 Print Assumptions C17_shape_of_current_source.
